@@ -8,6 +8,8 @@ RULE17 = ("explicit-state breadth-first search: state = concrete private coordin
           "executed on the real objects; after every transition canonical form, equality with a dense bitmask model and all observations (size, iteration, "
           "all register dot products, products with all index sets) are checked; search runs to a fixpoint. distinct_nontrivial = distinct reachable states")
 RULE18 = ("(a) complete enumeration of argument boxes for ext_gcd, get_mult_inverse, is_prime with int, long, cpp_int against schoolbook references; "
+          "(a') SpVecFP over the largest prime whose (p-1)^2 fits the coordinate type (int: 46337, long and cpp_int: 2^31-1): all ordered pairs of vectors over 3 coordinates with values in "
+          "{0,1,2,(p-1)/2,p-2,p-1}, built through public operations; a+b, a+=b, a*b, scalar products with the value alphabet and {p,p+1,-1} against a dense cpp_int model; "
           "(b) explicit-state BFS over 2 SpVecFP registers (state = concrete private entry vectors) for p in {2,3,5,7} under unit assignment, copy/move "
           "construction/assignment, +, +=, scalar * and *= by every integer in [-p-1, 2p+1], clear, to a fixpoint; invariant = indices strictly increasing, "
           "values in 1..p-1, equality with a dense mod-p model, dot products congruent. distinct_nontrivial = reachable states + non-degenerate argument tuples")
